@@ -73,6 +73,10 @@ pub enum OpKind {
     Mark,
     /// block the calling thread until the gate opens
     WaitGate { g: GateId },
+    /// release the harness's owner of the object while the calling thread is unwinding from a panic of its own
+    DropObjPanicking { o: ObjId },
+    /// despawn_threads_if_overloaded() called from a caller thread while the pool may be busy
+    Despawn,
 }
 
 #[derive(Clone, Debug, Serialize, Deserialize, PartialEq)]
@@ -233,7 +237,8 @@ impl Op {
             | OpKind::Suspend { o, .. }
             | OpKind::PipeIn { o, .. }
             | OpKind::Pipe { o, .. }
-            | OpKind::DropObj { o } => Some(*o),
+            | OpKind::DropObj { o }
+            | OpKind::DropObjPanicking { o } => Some(*o),
             _ => None,
         }
     }
@@ -269,6 +274,8 @@ impl Op {
             OpKind::SweepDone => "sweep_done",
             OpKind::Mark => "mark",
             OpKind::WaitGate { .. } => "wait_gate",
+            OpKind::DropObjPanicking { .. } => "drop_obj_panicking",
+            OpKind::Despawn => "despawn",
         }
     }
 }
